@@ -160,3 +160,45 @@ Proof. exact TokensStable.number_comma_needs_sep. Qed.
 Example C06_tight_is_not_relexed :
   TokensStable.scan (TokensStable.KCurrency :: TokensStable.KCurrency :: nil) ((85 :: 83 :: 68 :: nil) ++ (69 :: 85 :: 82 :: nil))%list%Z = None.
 Proof. exact TokensStable.ex_tight_fails. Qed.
+
+(* (d) optional children (Fields.v, as repaired by fixes/optional-remove-keeps-separator-when-glued.patch): removing the
+   child of an optional field keeps every token that lay between the pivot and the child (the separators) whenever the
+   child touches what lies on its other side - zero-width tokens Z skipped, the nearest token n with text shows a
+   character that is neither blank nor a bracket (RepeatedProofs.shows): the pivot and n are still apart afterwards.
+   `    Assets:Cash 10CAD`, number = None used to print `Assets:CashCAD`. *)
+From AB Require Fields RepeatedProofs.
+Theorem C06_remove_keeps_separation :
+  (forall P p G X Z n Q (cur : item) b,
+     NoDup (ids (P ++ p :: G ++ X ++ Z ++ n :: Q)) -> X <> nil ->
+     fst cur = tid (hd RepeatedProofs.dft X) -> snd cur = tid (last X RepeatedProofs.dft) ->
+     Forall (fun t => ttext t = nil) Z -> RepeatedProofs.shows true n = true -> In b G ->
+     exists B1 B2, G = B1 ++ b :: B2 /\
+       Fields.remove_node Fields.SLeft (P ++ p :: G ++ X ++ Z ++ n :: Q) (tid p) cur
+       = (P ++ p :: (B1 ++ b :: B2) ++ Z ++ n :: Q, Prelude.Ok tt)) /\
+  (forall P n Z X G p Q (cur : item) b,
+     NoDup (ids ((P ++ n :: Z) ++ X ++ G ++ p :: Q)) -> X <> nil ->
+     fst cur = tid (hd RepeatedProofs.dft X) -> snd cur = tid (last X RepeatedProofs.dft) ->
+     Forall (fun t => ttext t = nil) Z -> RepeatedProofs.shows false n = true -> In b G ->
+     exists B1 B2, G = B1 ++ b :: B2 /\
+       Fields.remove_node Fields.SRight ((P ++ n :: Z) ++ X ++ G ++ p :: Q) (tid p) cur
+       = ((P ++ n :: Z) ++ (B1 ++ b :: B2) ++ p :: Q, Prelude.Ok tt)).
+Proof. exact (conj RepeatedProofs.remove_left_keeps_separation RepeatedProofs.remove_right_keeps_separation). Qed.
+
+(* non-vacuity on the `10CAD` shape: indent, `Assets:Cash` (pivot, id 2), ` ` (b, id 3), `10` (child, id 4), `CAD` (n);
+   the blank is still between the account and the currency after posting.number = None *)
+Example C06_remove_keeps_separation_example :
+  let ind := mktok 1 KWhitespace (32 :: 32 :: nil)%Z in
+  let acc := mktok 2 KOther (65 :: 115 :: 115 :: 101 :: 116 :: 115 :: 58 :: 67 :: 97 :: 115 :: 104 :: nil)%Z in
+  let ws := mktok 3 KWhitespace (32 :: nil)%Z in
+  let num := mktok 4 KOther (49 :: 48 :: nil)%Z in
+  let cur := mktok 5 KOther (67 :: 65 :: 68 :: nil)%Z in
+  let eol := mktok 6 KPlaceholder nil in
+  let nl := mktok 7 KNewline (10 :: nil)%Z in
+  NoDup (ids ((ind :: nil) ++ acc :: (ws :: nil) ++ (num :: nil) ++ nil ++ cur :: eol :: nl :: nil)) /\
+  RepeatedProofs.shows true cur = true /\
+  Fields.remove_node Fields.SLeft (ind :: acc :: ws :: num :: cur :: eol :: nl :: nil) 2%Z (4, 4)%Z
+  = (ind :: acc :: ws :: cur :: eol :: nl :: nil, Prelude.Ok tt).
+Proof.
+  split; [|split; vm_compute; reflexivity].
+  repeat constructor; simpl; intuition congruence.
+Qed.
